@@ -41,6 +41,15 @@ LISTINGS = ['-rw-r--r--   1 root     other        531 Jan 29 03:26 README\ndr-xr
             '-rw-r--r-- 1 a b 1 29 Feb 2001 x\n-rw-r--r-- 1 a b 1 Feb 31 12:00 y\n-rw-r--r-- 1 a b 99999999999999999999999 Jan 1 00:00 z\n',
             '-rw-r--r-- 1 a b 1 1月 1 2000 x\n-rw-r--r-- 1 a b 1 janv. 1 2000 y\n']
 MLSD = ['type=file;size=1234;modify=20150101120000;perm=r; file.txt\ntype=dir;modify=20150101120000; sub\n', 'Type=cdir;Modify=19990101000000; .\n size=x; y\n', 'modify=99999999999999; a\nmodify=20150230120000; b\nsize=-1; c\nsize=1e3; d\n;;;=; e\n']
+# grammar-aware MLSD lines (RFC 3659): every fact name the converter knows, with every value shape a server can put there -- numbers in all the spellings int() /
+# float() accept or reject (exponents that overflow, inf / nan, signs, underscores, non-ASCII digits, 40 digits), time-vals with and without fractions
+_NUMS = ['0', '-1', '+5', '1e3', '1e999', '.1e999', 'inf', '-inf', 'nan', '1_0', '\u0663', '9' * 40, '', ' 1', '0x10', '1.5', '.', '1.', '١٢']
+_FRACS = ['', '.', '.5', '.123456789', '.1e999', '.e5', '.nan', '.inf', '.-1', '.9999999', '.1e-999', '.' + '9' * 400, '.5x', ',5']
+_TIMES = ['20150101120000', '2015010112000', '201501011200000', '00000101000000', '99991231235959', '20150230120000', '2015010112006\u0660', '2015-01-01 12']
+MLSD += ['%s=%s; f%d\n' % (fact, val, k) for k, (fact, val) in enumerate([(f_, v_) for f_ in ('size', 'sizd', 'unique', 'unix.mode', 'unix.uid', 'perm', 'type', 'lang', 'media-type', 'charset')
+                                                                             for v_ in _NUMS])]
+MLSD += ['%s=%s%s; t%d\n' % (fact, t_, fr, k) for k, (fact, t_, fr) in enumerate([(f_, t_, fr) for f_ in ('modify', 'create', 'Modify') for t_ in _TIMES for fr in _FRACS])]
+MLSD = [''.join(MLSD[i:i + 12]) for i in range(0, len(MLSD), 12)]          # a dozen lines per listing
 CSS = [b'@import url("a.css"); body { background: url(b.png) } /* url(c) */ @import "d.css";', b'@charset "utf-16"; a{b:url(\\75 rl)}', b'\xff\xfe@\x00i\x00m\x00p\x00o\x00r\x00t\x00', b'url(' + b'a' * 600 + b')']
 JS = [b'var a = "http://example.com/a.png"; var b = \'/b/c.html\'; x("\\u0041\\x41\\/d.js");', b'"\\ud800" "\\u" "\\" \'\\\n\' "a\\', b'"' + b'\\' * 999 + b'"', b'x = "%s"' % (b'/a' * 400)]
 ROBOTS = [b'User-agent: *\nDisallow: /private\nAllow: /\nCrawl-delay: 1\nSitemap: http://h/s.xml\n', b'\xef\xbb\xbfUser-agent: a\nDisallow\n: x\nCrawl-delay: x\nRequest-rate: 1/0\nVisit-time: 9999-0000\n', b'User-agent: *\nCrawl-delay: 1e400\nRequest-rate: 0/0\n', b'\xff\xfe\x00\x00' * 8]
